@@ -266,6 +266,31 @@ pub fn run(tier: Tier) -> i32 {
         toks.extend(fields(i + 3, "t", false));
         toks.push("}".into());
         toks.push("}".into());
+        // a struct of the same name in another contract with the members reversed, and one in an interface
+        if i % 2 == 0 {
+            toks.extend(["library".to_string(), "L2".into(), "{".into(), "struct".into(), "T".into(), "{".into()]);
+            let mut rev: Vec<Vec<String>> = Vec::new();
+            let f = fields(i + 4, "r", false);
+            let mut cur = Vec::new();
+            for t in f {
+                let end = t == ";";
+                cur.push(t);
+                if end {
+                    rev.push(std::mem::take(&mut cur));
+                }
+            }
+            rev.reverse();
+            for r in rev {
+                toks.extend(r);
+            }
+            toks.push("}".into());
+            toks.push("}".into());
+        } else {
+            toks.extend(["interface".to_string(), "I2".into(), "{".into(), "struct".into(), "U".into(), "{".into()]);
+            toks.extend(fields(i + 5, "u", false));
+            toks.push("}".into());
+            toks.push("}".into());
+        }
         let (t, o) = render_l1(&toks);
         (format!("sizes:{:?}:variant{}", s, variant), t, o)
     });
